@@ -1378,6 +1378,11 @@ class Model(object):
         self.q_local = LagElement(self.t[0], self.q[0,:], self.D,
                        self.profile, self.p, self.particles, self.tracers,
                        self.chem_names)
+        
+        # Restore the heat transfer reduction factors, which the update of 
+        # the local element may have turned off
+        for i in range(len(self.particles)):
+            self.particles[i].K_T = self.K_T0[i]
 
         # Load in any farfield tracking results
         for i in range(len(self.particles)):
